@@ -1,4 +1,5 @@
 import GffProofs.Props.C13
+import GffProofs.Props.C13b
 open GffProofs.C13
 #print axioms peek_preserves
 #print axioms peek_items
@@ -12,3 +13,12 @@ open GffProofs.C13
 #print axioms inspect_counts
 #print axioms inspect_counts_nodup
 #print axioms inspect_input
+#print axioms attrField_render
+#print axioms sameMapping_wf
+#print axioms infer_parse_render_line
+#print axioms chosen_eq
+#print axioms forms_equivalent_dims
+#print axioms forms_equivalent_wf
+#print axioms forms_equivalent_wf_plain
+#print axioms wfprov_not_enough
+#print axioms supplied_dims_needed
